@@ -572,6 +572,8 @@ func c16Gen(rt *rapid.T) c16Case {
 	return c
 }
 
+var c16ReadinessTries int
+
 // (c) the readiness endpoint of the real binary
 func c16Readiness() *evid.Fail {
 	bin := os.Getenv("VERIF_BIN")
@@ -583,7 +585,7 @@ func c16Readiness() *evid.Fail {
 		return evid.Failf("harness-env", "%v", err)
 	}
 	defer cl.Close()
-	bind := fmt.Sprintf("127.0.0.1:%d", freePort())
+	bind := "127.0.0.1:0"
 	httpBind := fmt.Sprintf("127.0.0.1:%d", freePort())
 	out := &syncBuf{}
 	cmd := exec.Command(bin, "--bind", bind, "--contact-points", cl.HostIP(0), "--port", fmt.Sprint(cl.Port), "--health-check", "--http-bind", httpBind, "--readiness-timeout", "300ms",
@@ -619,6 +621,10 @@ func c16Readiness() *evid.Fail {
 			time.Sleep(20 * time.Millisecond)
 		}
 		return code, od
+	}
+	if code, _ := waitFor(200, 10*time.Second); code != 200 && strings.Contains(out.String(), "address already in use") && c16ReadinessTries < 3 {
+		c16ReadinessTries++ // somebody else took the HTTP port between the harness choosing it and the child binding it
+		return c16Readiness()
 	}
 	if code, od := waitFor(200, 10*time.Second); code != 200 {
 		return evid.Failf("readiness-at-start", "readiness is %d (outage %s) with a control connection established\n%s", code, od, out.String())
